@@ -185,16 +185,26 @@ def Scn.step (s : Scn) (toks : List String) : Scn :=
       let p0 := allPy pySem ρ' src
       -- specification with late attachment passes: the entries given by name whose names a pass provides must hold
       -- in that pass's environment too, pass after pass (evaluation stops at the first guard that does not hold)
-      let p : Option Bool × List Nat := (List.range s.npasses).foldl (fun (acc : Option Bool × List Nat) k =>
-          if acc.1 != some true then acc else
+      -- (an entry whose key — the expression resolved over the pass's providers, and the expected value — was seen
+      -- before is not registered again: `addNew`)
+      let seen0 : List Guard := s.entries3.filterMap fun en =>
+        match en.1 with
+        | .parsed e => some ⟨subst s.prov e, en.2.1⟩
+        | _ => none
+      let p3 : Option Bool × List Nat × List Guard :=
+        (List.range s.npasses).foldl (fun (acc : Option Bool × List Nat × List Guard) k =>
             let pv := s.lprov k
-            let srck : List Guard := s.entries3.filterMap fun en =>
+            let cand : List (Guard × Guard) := s.entries3.filterMap fun en =>
               match en.1, en.2.2 with
-              | .parsed e, true => if (unknowns pv e).isEmpty then some ⟨e, en.2.1⟩ else none
+              | .parsed e, true => if (unknowns pv e).isEmpty then some (⟨e, en.2.1⟩, ⟨subst pv e, en.2.1⟩) else none
               | _, _ => none
-            let pk := allPy pySem (envOf pv ρ) srck
-            (pk.val, acc.2 ++ pk.reads.flatMap fun n => provReads ρ (pv n)))
-        (p0.val, p0.reads.flatMap fun n => provReads ρ (s.prov n))
+            let fresh := cand.foldl (fun (a : List (Guard × Guard) × List Guard) c =>
+              if a.2.contains c.2 then a else (a.1 ++ [c], a.2 ++ [c.2])) (([] : List (Guard × Guard)), acc.2.2)
+            if acc.1 != some true then (acc.1, acc.2.1, fresh.2) else
+              let pk := allPy pySem (envOf pv ρ) (fresh.1.map (·.1))
+              (pk.val, acc.2.1 ++ pk.reads.flatMap fun n => provReads ρ (pv n), fresh.2))
+          (p0.val, p0.reads.flatMap fun n => provReads ρ (s.prov n), seen0)
+      let p : Option Bool × List Nat := (p3.1, p3.2.1)
       let line := s!"send {verdictS r.val} lib={readsLib r.reads} py={readsPy p.2} spec={verdictS p.1}"
       { s with out := s.out.push line }
     | _ => { s with out := s.out.push "send dead" }
